@@ -5,7 +5,7 @@ use crate::decimal::parse_literal;
 use crate::gen::{self, LitCfg};
 use crate::runner::{guarded, CaseReport, Ctx};
 use crate::tool::{run, shared_db, to_big, R};
-use num::BigRational;
+use num::{BigRational, Zero};
 use proptest::prelude::*;
 use serde::{Deserialize, Serialize};
 use serde_json::{json, Value};
@@ -83,7 +83,71 @@ pub fn expand(lit: &str) -> String {
     out
 }
 
+/// A literal whose exponent does not fit 32 bits (2^32 and beyond, either sign): its exact value with a non-zero
+/// mantissa cannot be held in memory, so every entry point must refuse it; handing out a number (the mantissa,
+/// the mantissa scaled by the exponent modulo 2^32, zero …) would be reading it wrongly.  With a zero mantissa
+/// the exact value is zero and zero is accepted as well.
+fn check_exponent_beyond_32_bits(s: &str) -> CaseReport {
+    let db = shared_db();
+    let mantissa_is_zero = s.split(|c| c == 'e' || c == 'E').next().map(|m| !m.bytes().any(|b| (b'1'..=b'9').contains(&b))).unwrap_or(false);
+    let judge_value = |obs: &str, v: Option<BigRational>| -> Option<CaseReport> {
+        match v {
+            None => None,
+            Some(x) if mantissa_is_zero && x.is_zero() => None,
+            Some(x) => Some(CaseReport::fail(s, "exponent-beyond-32-bits-read-as-a-number", json!({"literal": s, "observation": obs, "got": x.to_string().chars().take(200).collect::<String>()}))),
+        }
+    };
+    let bare = s.trim_end_matches('%');
+    if bare.len() == s.len() {
+        match guarded(s, || s.parse::<anything::Rational>().ok().map(|r| crate::tool::to_big(&r))) {
+            Err(p) => return CaseReport::fail(s, "panic", json!({"literal": s, "panic": p})),
+            Ok(v) => {
+                if let Some(f) = judge_value("str::parse::<Rational>", v) {
+                    return f;
+                }
+            }
+        }
+    }
+    for (obs, q) in [("query", s.to_string()), ("left-operand", format!("{} + 1", s)), ("right-operand", format!("2 * {}", s))] {
+        match run(db, &q) {
+            Err(p) => return CaseReport::fail(s, "panic", json!({"literal": s, "query": q, "panic": p})),
+            Ok(rs) => {
+                let v = match rs.as_slice() {
+                    [R::Ok(v)] if obs == "query" => Some(v.value.clone()),
+                    [R::Ok(v)] if obs == "left-operand" => Some(&v.value - crate::tool::big(1)),
+                    [R::Ok(v)] => Some(&v.value / crate::tool::big(2)),
+                    _ => None,
+                };
+                if let Some(f) = judge_value(obs, v) {
+                    return f;
+                }
+            }
+        }
+    }
+    CaseReport::pass(s, true, vec!["exponent-beyond-32-bits"])
+}
+
+fn exponents_beyond_32_bits() -> Vec<LitCase> {
+    let mut v = Vec::new();
+    let exps = ["4294967296", "4294967297", "4294967306", "8589934592", "8589934593", "42949672960", "99999999999", "9223372036854775807", "9223372036854775808", "18446744073709551615", "18446744073709551616", "18446744073709551617", "340282366920938463463374607431768211456", "00004294967296", "4294967296000"];
+    for e in exps {
+        for m in ["1", "25", "1.5", "0.001", "7.", ".5", "0", "0.0", "123456789012345678901234567890"] {
+            for sign in ["", "+", "-"] {
+                for ee in ["e", "E"] {
+                    v.push(LitCase { lit: format!("{}{}{}{}", m, ee, sign, e) });
+                }
+            }
+        }
+        v.push(LitCase { lit: format!("1.5e+{}%", e) });
+        v.push(LitCase { lit: format!("-3e{}", e) });
+    }
+    v
+}
+
 pub fn check(c: &LitCase) -> CaseReport {
+    if c.lit.starts_with("beyond32:") {
+        return check_exponent_beyond_32_bits(&c.lit["beyond32:".len()..]);
+    }
     let expanded = expand(&c.lit);
     let s = &expanded;
     let want = match parse_literal(s) {
@@ -193,7 +257,7 @@ fn plausible(s: &str) -> bool {
 }
 
 pub fn run_check(ctx: &Ctx) {
-    ctx.set_rule("every well-formed literal (sign? digits [. digits*] | . digits+, optional exponent with optional sign, optional %) up to the stated length is enumerated; each is read by str::parse::<Rational>, as a bare query, as a left operand (lit * 1) and as a right operand (0 + lit), all compared with an independent decimal reader; non-trivial = has sign, point, exponent, leading zero or percent; distinct by literal text");
+    ctx.set_rule("every well-formed literal (sign? digits [. digits*] | . digits+, optional exponent with optional sign, optional %) up to the stated length is enumerated; each is read by str::parse::<Rational>, as a bare query, as a left operand (lit * 1) and as a right operand (0 + lit), all compared with an independent decimal reader; literals whose exponent does not fit 32 bits (2^32 .. 2^128, both signs) must be refused at every entry point (zero mantissa: refused or zero); non-trivial = has sign, point, exponent, leading zero or percent; distinct by literal text");
     let corpus: Vec<(String, LitCase)> = load_corpus("C07");
     let cases: Vec<LitCase> = corpus.into_iter().map(|c| c.1).collect();
     ctx.run_list("corpus", &cases, check, |c| to_json(c));
@@ -250,6 +314,9 @@ pub fn run_check(ctx: &Ctx) {
     let n = ctx.tier.pick(100_000u64, 2_000_000);
     let long = LitCfg { max_int_digits: ctx.tier.pick(300, 600), max_frac_digits: ctx.tier.pick(300, 600), max_exp: 999, allow_percent: true, allow_neg: true, allow_plus: true, allow_exotic: true };
     ctx.run_gen("random-long", || gen::lit(long).prop_map(|l| LitCase { lit: l.text }), n / 40, check, |c| to_json(c));
+    // exponents that do not fit 32 bits: refused at every entry point (never a number that is not the value)
+    let beyond: Vec<LitCase> = exponents_beyond_32_bits().into_iter().map(|c| LitCase { lit: format!("beyond32:{}", c.lit) }).collect();
+    ctx.run_list("exponents-beyond-32-bits", &beyond, check, |c| to_json(c));
     ctx.run_gen("word-boundary", || gen::word_boundary_lit().prop_map(|l| LitCase { lit: l.text }), n / 10, check, |c| to_json(c));
     // literals of more than a thousand characters with a point and an exponent, around the powers of two a
     // buffer or fast path might be sized by (the tool's reader is quadratic, so only a handful)
